@@ -6,8 +6,9 @@ From Coq Require Import QArith Qabs.
 From Dashu Require Import Base.Prelude Ratio.RatArithModel Ratio.RatArithCanon Ratio.RatArithProofs
   Ratio.RatArithConst Ratio.RatArithRelaxed Ratio.RatArithQ Ratio.RatArithHistory Ratio.RatArithSummary
   Ratio.RatArithRelaxedInv Ratio.RatioAtoms Ratio.RatioBodiesModel Ratio.RatioBodiesProof
-  Int.BitsKernels Ratio.Reduce2WordsModel Ratio.Reduce2WordsProof.
-From DashuGen Require Import RatioBodies.
+  Int.BitsKernels Ratio.Reduce2WordsModel Ratio.Reduce2WordsProof
+  Ratio.RatioAtoms4 Ratio.RatioBodies4Model Ratio.RatioBodies4Proof.
+From DashuGen Require Import RatioBodies RatioBodies4.
 Open Scope Z_scope.
 
 (* ------------------------------------------------------------ the canonical form *)
@@ -424,3 +425,160 @@ Print Assumptions C04_from_integer.
 Theorem C04_iter_rs_is_not_a_module : gen_ratio_iter_is_a_module = false.
 Proof. exact iter_not_a_module. Qed.
 Print Assumptions C04_iter_rs_is_not_a_module.
+
+(* ------------------------------------------------------------ round 4: the remaining hand transcriptions REGENERATED
+   (coq/gen/RatioBodies4.v, tools/translate_c04_r4.py: clone / clone_from, the impl_binop_assign_by_taking! rows, from_parts_const
+   with its while loop, parse.rs, convert.rs, the one-line wrappers, third_party/num_traits.rs, third_party/serde.rs) and the
+   histories extended by the in-place forms, clone / clone_from, integers on the left and From<integer> *)
+Theorem C04_r4_clone_and_clone_from : forall x s,
+  gen_Repr_clone x = x /\ gen_RBig_clone x = x /\ gen_Relaxed_clone x = x /\
+  gen_Repr_clone_from x s = s /\ gen_RBig_clone_from x s = s /\ gen_Relaxed_clone_from x s = s /\
+  gen_RBig_default = (0, 1) /\ gen_Relaxed_default = (0, 1).
+Proof. exact gen_clone_ok. Qed.
+Print Assumptions C04_r4_clone_and_clone_from.
+
+Theorem C04_r4_assign_forms_are_the_operators : forall a x y,
+  gassign a x y = gbin (aop_bin a) x y /\ gxassign a x y = gxbin (aop_bin a) x y.
+Proof. exact gassign_is_op. Qed.
+Print Assumptions C04_r4_assign_forms_are_the_operators.
+
+Theorem C04_r4_assign_forms_exact : forall a x y, Inv x -> Inv y ->
+  gassign a x y = bin_spec (aop_bin a) x y /\ (forall r, gassign a x y = Ok r -> Inv r) /\
+  res_veq (gxassign a x y) (bin_spec (aop_bin a) x y).
+Proof. exact gassign_spec. Qed.
+Print Assumptions C04_r4_assign_forms_exact.
+
+Theorem C04_r4_unary_wrappers : forall x_ r o x, gun4 x_ r o x = gun x_ o x.
+Proof. exact gun4_is_gun. Qed.
+Print Assumptions C04_r4_unary_wrappers.
+
+Theorem C04_r4_rounding_pow_wrappers : forall x n,
+  gen_RBig_split_at_point x = gsplit x /\ gen_Relaxed_split_at_point x = gsplit x /\
+  gen_RBig_ceil x = gceil x /\ gen_Relaxed_ceil x = gceil x /\ gen_RBig_floor x = gfloor x /\ gen_Relaxed_floor x = gfloor x /\
+  gen_RBig_round x = ground x /\ gen_Relaxed_round x = ground x /\ gen_RBig_trunc x = gtrunc x /\ gen_Relaxed_trunc x = gtrunc x /\
+  gen_RBig_pow x n = gpow x n /\ gen_Relaxed_pow x n = gpow x n /\
+  gen_RBig_sign (fst x) (snd x) = sign_of (fst x) /\ gen_Relaxed_sign (fst x) (snd x) = sign_of (fst x) /\
+  gen_Relaxed_canonicalize x = gen_reduce x /\ gen_RBig_relax x = x.
+Proof. exact gen_wrappers_ok. Qed.
+Print Assumptions C04_r4_rounding_pow_wrappers.
+
+Theorem C04_r4_canonicalize : forall x, 0 < snd x ->
+  gen_Relaxed_canonicalize x = canon (fst x) (snd x) /\ Inv (gen_Relaxed_canonicalize x).
+Proof. exact canonicalize_ok. Qed.
+Print Assumptions C04_r4_canonicalize.
+
+(* the while loop of RBig::from_parts_const, regenerated: with the fuel fpc_fuel d it ends (no OutOfFuel) and returns the
+   canonical rational; operands are DoubleWords, hence non-negative *)
+Theorem C04_r4_from_parts_const_generated : forall s n d, 0 <= n -> 0 <= d ->
+  gen_RBig_from_parts_const (fpc_fuel d) s n d = from_parts_const_spec s n d /\
+  (forall fuel, gen_Relaxed_from_parts_const fuel s n d = xfrom_parts_const_asis s n d) /\
+  (forall fuel, res_veq (gen_Relaxed_from_parts_const fuel s n d) (from_parts_const_spec s n d)).
+Proof. exact gen_from_parts_const_ok. Qed.
+Print Assumptions C04_r4_from_parts_const_generated.
+
+Theorem C04_r4_from_parts_const_is_the_transcription : forall s n d, 0 <= n -> 0 <= d ->
+  gen_RBig_from_parts_const (fpc_fuel d) s n d = from_parts_const_asis s n d.
+Proof. exact gen_RBig_from_parts_const_asis. Qed.
+Print Assumptions C04_r4_from_parts_const_is_the_transcription.
+
+(* parse.rs regenerated; the integer parsers of dashu-int on the pieces of the text are parameters (any functions) *)
+Theorem C04_r4_parsers_rbig : forall ip ipp ipd hs radix,
+  gen_RBig_from_str_radix ip hs radix = parse_radix_spec ip hs radix /\
+  gen_RBig_from_str ip hs = parse_radix_spec ip hs 10 /\
+  gen_RBig_from_str_with_radix_prefix ipp ipd hs = parse_prefix_spec ipp ipd hs.
+Proof. exact gen_RBig_parsers_ok. Qed.
+Print Assumptions C04_r4_parsers_rbig.
+
+Theorem C04_r4_parsers_relaxed : forall ip ipp ipd hs radix,
+  res_veq_e (gen_Relaxed_from_str_radix ip hs radix) (parse_radix_spec ip hs radix) /\
+  res_veq_e (gen_Relaxed_from_str ip hs) (parse_radix_spec ip hs 10) /\
+  res_veq_er (gen_Relaxed_from_str_with_radix_prefix ipp ipd hs) (parse_prefix_spec ipp ipd hs).
+Proof. exact gen_Relaxed_parsers_ok. Qed.
+Print Assumptions C04_r4_parsers_relaxed.
+
+Theorem C04_r4_parsers_relaxed_are_the_transcription : forall ip ipp ipd hs radix,
+  gen_Relaxed_from_str_radix ip hs radix = xparse_radix_asis ip hs radix /\
+  gen_Relaxed_from_str ip hs = xparse_radix_asis ip hs 10 /\
+  gen_Relaxed_from_str_with_radix_prefix ipp ipd hs = xparse_prefix_asis ipp ipd hs.
+Proof. exact gen_Relaxed_parsers_asis. Qed.
+Print Assumptions C04_r4_parsers_relaxed_are_the_transcription.
+
+(* convert.rs regenerated *)
+Theorem C04_r4_from_integers : forall v,
+  gen_RBig_from_UBig v = (v, 1) /\ gen_RBig_from_IBig v = (v, 1) /\ gen_RBig_from_prim v = (v, 1) /\
+  gen_Relaxed_from_UBig v = (v, 1) /\ gen_Relaxed_from_IBig v = (v, 1) /\ gen_Relaxed_from_prim v = (v, 1) /\
+  (v, 1) = canon v 1 /\ Inv (v, 1) /\ length gen_prim_int_types = 12%nat.
+Proof. exact gen_from_int_ok. Qed.
+Print Assumptions C04_r4_from_integers.
+
+Theorem C04_r4_into_integers : forall x v,
+  (gen_IBig_try_from_RBig x = Ok v <-> x = (v, 1)) /\
+  (gen_UBig_try_from_RBig x = Ok v <-> x = (v, 1) /\ 0 <= v) /\
+  (gen_IBig_try_from_Relaxed x = Ok v <-> x = (v, 1)) /\
+  (gen_UBig_try_from_Relaxed x = Ok v <-> x = (v, 1) /\ 0 <= v).
+Proof. exact gen_try_into_int_ok. Qed.
+Print Assumptions C04_r4_into_integers.
+
+Theorem C04_r4_integer_valued_rbig_converts : forall x v, Inv x -> veq x (v, 1) -> gen_IBig_try_from_RBig x = Ok v.
+Proof. exact rbig_integer_converts. Qed.
+Print Assumptions C04_r4_integer_valued_rbig_converts.
+
+Theorem C04_r4_from_floats_generated : forall m e,
+  gen_RBig_try_from_float (m =? 0) (Some (m, e)) = from_float_asis m e /\
+  gen_Relaxed_try_from_float (m =? 0) (Some (m, e)) = from_float_asis m e /\
+  gen_RBig_try_from_float false None = Err 1 /\ gen_Relaxed_try_from_float false None = Err 1.
+Proof. exact gen_try_from_float_ok. Qed.
+Print Assumptions C04_r4_from_floats_generated.
+
+(* third_party/num_traits.rs: every method forwards to the inherent operation proved above *)
+Theorem C04_r4_num_traits_rbig : forall ip hs x y radix k,
+  gen_nt_RBig_zero = (0, 1) /\ gen_nt_RBig_one = (1, 1) /\
+  gen_nt_RBig_is_zero x = gen_RBig_is_zero (fst x) (snd x) /\ gen_nt_RBig_is_one x = gen_RBig_is_one (fst x) (snd x) /\
+  gen_nt_RBig_from_str_radix ip hs radix = gen_RBig_from_str_radix ip hs radix /\
+  Ok (gen_nt_RBig_abs x) = gun false UAbs x /\ Ok (gen_nt_RBig_signum x) = gun false USignum x /\
+  gen_nt_RBig_abs_sub x y = rbind (gbin OSub x y) (gun false UAbs) /\
+  gen_nt_RBig_is_positive x = (0 <? fst x) /\ gen_nt_RBig_is_negative x = (fst x <? 0) /\
+  gen_nt_RBig_rem_euclid x y = gbin ORemE x y /\
+  gen_nt_RBig_div_euclid x y = rbind (gdive x y) (fun q => Ok (q, 1)) /\
+  gen_nt_RBig_pow x k = gpow x k /\ gen_nt_RBig_pow_ref x k = gpow x k.
+Proof. exact gen_numtraits_rbig. Qed.
+Print Assumptions C04_r4_num_traits_rbig.
+
+Theorem C04_r4_num_traits_relaxed : forall ip hs x y radix k,
+  gen_nt_Relaxed_zero = (0, 1) /\ gen_nt_Relaxed_one = (1, 1) /\
+  gen_nt_Relaxed_is_zero x = gen_Relaxed_is_zero (fst x) (snd x) /\ gen_nt_Relaxed_is_one x = gen_Relaxed_is_one (fst x) (snd x) /\
+  gen_nt_Relaxed_from_str_radix ip hs radix = gen_Relaxed_from_str_radix ip hs radix /\
+  Ok (gen_nt_Relaxed_abs x) = gun true UAbs x /\ Ok (gen_nt_Relaxed_signum x) = gun true USignum x /\
+  gen_nt_Relaxed_abs_sub x y = rbind (gxbin OSub x y) (gun true UAbs) /\
+  gen_nt_Relaxed_is_positive x = (0 <? fst x) /\ gen_nt_Relaxed_is_negative x = (fst x <? 0) /\
+  gen_nt_Relaxed_rem_euclid x y = gxbin ORemE x y /\
+  gen_nt_Relaxed_div_euclid x y = rbind (gxdive x y) (fun q => Ok (q, 1)) /\
+  gen_nt_Relaxed_pow x k = gpow x k /\ gen_nt_Relaxed_pow_ref x k = gpow x k.
+Proof. exact gen_numtraits_relaxed. Qed.
+Print Assumptions C04_r4_num_traits_relaxed.
+
+(* third_party/serde.rs: a deserialized RBig is in lowest terms whatever pair the data held; a zero denominator is refused *)
+Theorem C04_r4_serde_deserialize : forall n d, 0 <= d ->
+  gen_serde_RBig_deserialize n d = deserialize_spec n d /\
+  (forall r, gen_serde_RBig_deserialize n d = Ok r -> Inv r) /\
+  res_veq_e (gen_serde_Relaxed_deserialize n d) (deserialize_spec n d).
+Proof. exact gen_serde_ok. Qed.
+Print Assumptions C04_r4_serde_deserialize.
+
+(* histories: rounds 1-3 operations + in-place forms (a panic leaves Default behind) + clone / clone_from into occupied slots +
+   integers on the left + From<integer>; every finite history, through the regenerated bodies *)
+Theorem C04_r4_history_invariant_and_exact : forall ops p, Forall Inv p ->
+  hrun4 heval4_gen gen_RBig_default ops p = hrun4 heval4_spec (0, 1) ops p /\
+  Forall Inv (hrun4 heval4_gen gen_RBig_default ops p).
+Proof. exact hrun4_gen_spec. Qed.
+Print Assumptions C04_r4_history_invariant_and_exact.
+
+Theorem C04_r4_history_relaxed_lock_step : forall ops px p, PoolRel px p -> Forall Inv p -> Forall RInvE px ->
+  PoolRel (hrun4 heval4_xgen gen_Relaxed_default ops px) (hrun4 heval4_gen gen_RBig_default ops p) /\
+  Forall RInvE (hrun4 heval4_xgen gen_Relaxed_default ops px).
+Proof. exact hrun4_xgen_lock_step. Qed.
+Print Assumptions C04_r4_history_relaxed_lock_step.
+
+Theorem C04_r4_history_step_total : forall p o, (exists r, heval4_spec p o = Ok r) \/ heval4_spec p o = Panic DivideBy0.
+Proof. exact heval4_spec_total. Qed.
+Print Assumptions C04_r4_history_step_total.
